@@ -12,7 +12,7 @@
    [self], every history.  Domain of the model: import paths are byte strings; it is the code's
    behaviour on ASCII paths (Go import paths are ASCII). *)
 Require Import Gengo.Base.Bytes Gengo.Model.GoIdent Gengo.Model.Tracker Gengo.Model.TrackerSpec
-               Gengo.Proofs.Tracker Gengo.Gen.StdList Gengo.Proofs.StdTable.
+               Gengo.Proofs.Tracker Gengo.Proofs.TrackerStd Gengo.Gen.StdList Gengo.Proofs.StdTable.
 From Coq Require Import Permutation Sorted.
 
 (* The naming never panics and always terminates (the numbered fallback loop of the repaired
@@ -64,6 +64,16 @@ Theorem C03_std_reserved :
     forall p n sp, lookup p (p2n tr) = Some n -> lookup n (n2p s) = Some sp -> p = sp.
 Proof. exact run_std_reserved. Qed.
 Print Assumptions C03_std_reserved.
+
+(* ... and conversely a std package is always imported under the name the table gives it, whatever
+   else the history imports and in whatever order ([build_std] = std.go's init over any list). *)
+Theorem C03_std_packages_keep_their_names :
+  forall fixed lines s self ops tr texts snaps,
+    build_std fixed lines = Ok s ->
+    run fixed (Some s) self ops = Ok (tr, texts, snaps) ->
+    forall p n sn, lookup p (p2n tr) = Some n -> lookup p (p2n s) = Some sn -> n = sn.
+Proof. exact std_packages_keep_their_names. Qed.
+Print Assumptions C03_std_packages_keep_their_names.
 
 (* Identifier validity (repaired code): every local name is a Go identifier, not a keyword, not "_". *)
 Theorem C03_valid_names :
